@@ -1004,20 +1004,20 @@ class Interp:
             return [(Term("call", (fv,) + tuple(self.B.freeze_term(self, a, st) for a in args) + ((("kw",) + kw,) if kw else ())), st)]
         if isinstance(fv, Opaque) and fv.cls in self.B.EXT_CALLS:
             return self.B.EXT_CALLS[fv.cls](self, args, kwargs, st, node)
-        if isinstance(fv, Opaque) and "." in fv.cls:
-            # an accessor fetched with getattr() / stored in a table and called later:  f = ctx.area; f()  ==  ctx.area()
-            base, name = fv.cls.rsplit(".", 1)
-            hook = self.probes.get("method:" + base.split(".")[0]) or self.probes.get("method:" + base) or self.probes.get("method:*")
-            if hook:
-                r = hook(self, Opaque(base, fv.tag), name, args, kwargs, st, node)
-                if r is not None:
-                    return r
         if isinstance(fv, Opaque):
             hook = self.probes.get("call:" + fv.cls) or self.probes.get("call:*")
             if hook:
                 r = hook(self, fv, args, kwargs, st, node)
                 if r is not None:
                     return r
+            if "." in fv.cls:
+                # an accessor fetched with getattr() / stored in a table and called later:  f = ctx.area; f()  ==  ctx.area()
+                base, name = fv.cls.rsplit(".", 1)
+                mhook = self.probes.get("method:" + base.split(".")[0]) or self.probes.get("method:" + base) or self.probes.get("method:*")
+                if mhook:
+                    r = mhook(self, Opaque(base, fv.tag), name, args, kwargs, st, node)
+                    if r is not None:
+                        return r
             return [(Opaque(fv.cls + "()", fv.tag), st)]
         st.note(f"call of unknown callee {ast.unparse(node.func)[:50] if isinstance(node, ast.Call) else fv}")
         return [(Unknown("call"), st)]
